@@ -77,6 +77,40 @@ def main():
                     return n.name
             return "<module>"
 
+        def fresh_local(node, name):
+            """`name` is, in the function enclosing `node`, a plain local (not a parameter, not global / nonlocal, not a module-level
+            name) and every binding of it there is a freshly built container ({} [] set() dict() list() a comprehension ...)."""
+            f = node
+            while f in par and not isinstance(f, (ast.FunctionDef, ast.AsyncFunctionDef)):
+                f = par[f]
+            if not isinstance(f, (ast.FunctionDef, ast.AsyncFunctionDef)) or name in modnames:
+                return False
+            a = f.args
+            if name in [x.arg for x in a.posonlyargs + a.args + a.kwonlyargs] or (a.vararg and a.vararg.arg == name) or (a.kwarg and a.kwarg.arg == name):
+                return False
+            binds = []
+            for m in ast.walk(f):
+                if isinstance(m, (ast.Global, ast.Nonlocal)) and name in m.names:
+                    return False
+                if isinstance(m, ast.Assign) and any(isinstance(t, ast.Name) and t.id == name for t in m.targets):
+                    binds.append(m.value)
+                elif isinstance(m, ast.AnnAssign) and isinstance(m.target, ast.Name) and m.target.id == name and m.value is not None:
+                    binds.append(m.value)
+                elif isinstance(m, (ast.For, ast.comprehension)) and any(isinstance(t, ast.Name) and t.id == name for t in ast.walk(m.target)):
+                    return False
+                elif isinstance(m, (ast.With, ast.AsyncWith)) and any(i.optional_vars is not None and any(isinstance(t, ast.Name) and t.id == name for t in ast.walk(i.optional_vars)) for i in m.items):
+                    return False
+                elif isinstance(m, ast.NamedExpr) and m.target.id == name:
+                    return False
+                elif isinstance(m, ast.AugAssign) and isinstance(m.target, ast.Name) and m.target.id == name:
+                    return False
+
+            def fresh(v):
+                if isinstance(v, (ast.Dict, ast.List, ast.Set, ast.DictComp, ast.ListComp, ast.SetComp)):
+                    return True
+                return isinstance(v, ast.Call) and isinstance(v.func, ast.Name) and v.func.id in ("dict", "list", "set") and v.func.id not in modnames
+            return bool(binds) and all(fresh(v) for v in binds)
+
         for n in ast.walk(tree):
             if isinstance(n, ast.Global):
                 for g in n.names:
@@ -101,6 +135,8 @@ def main():
                     while isinstance(base, (ast.Attribute, ast.Subscript)):
                         base = base.value
                     root = base.id if isinstance(base, ast.Name) else type(base).__name__
+                    if isinstance(base, ast.Name) and fresh_local(n, root):
+                        continue        # a store into a container created in this very call: no state outlives it through this write
                     writes.append((fn, encl(n), "store:" + root))
             if isinstance(n, ast.Call):
                 f = ast.unparse(n.func)
